@@ -63,6 +63,14 @@ for _n, _f in [
     _simple(_n, _f)
 
 
+@model("numpy.transpose")
+def _np_transpose(fr, args, kwargs):
+    axes = kwargs.get("axes", args[1] if len(args) > 1 else None)
+    if set(kwargs) - {"axes"} or len(args) > 2:
+        raise Unsupported("np.transpose with arguments outside the model")
+    return N.transpose(args[0]) if axes is None else N.transpose_axes(args[0], tuple(axes))
+
+
 @model("numpy.nansum")
 def _np_nansum(fr, args, kwargs):
     return N.nansum(args[0], kwargs.get("axis", args[1] if len(args) > 1 else None))
@@ -407,6 +415,9 @@ def arr_method(fr, a, name, args, kwargs):
     extra = set(kwargs) - _ARR_METHOD_KW.get(name, set())
     if extra:
         raise Unsupported(f"ndarray.{name} with keyword(s) {sorted(extra)} outside the model")
+    if name == "transpose" and args:
+        axes = tuple(args[0]) if len(args) == 1 and isinstance(args[0], (tuple, list)) else tuple(args)
+        return N.transpose_axes(a, axes)
     if name in _ARR_METHOD_NOARGS and args:
         raise Unsupported(f"ndarray.{name} with arguments outside the model")
     if name == "reshape":
